@@ -157,6 +157,23 @@ def run(ctx):
     errs = {D.show(U.payload(p.ret)).rsplit("::", 1)[-1] for p in paths if p.kind == "ret" and U.is_err(p.ret)}
     ctx.check(errs == {"NotFound", "ServerDefault"}, "C13.guards", "C13.guards:remove:errors", w.where(f), bad_msg=f"remove errors are {errs}")
     ctx.floor("remove success paths", len(okp), 5)
+    # what `remove` tests is AnyPushRuleRef::is_server_default: it has to answer from the rule's `default` flag, for every kind (a server-default room
+    # or sender rule has a room / user id as rule id, so the shape of the id says nothing)
+    dexa = D.Dex(w.lookup, adt_discr=w.adt_discr, inline=lambda n_: False, ctors=w.ctors)
+    fa = w.fn("ruma_common::push::iter::AnyPushRuleRef::<'a>::is_server_default")
+    got = {}
+    for p in dexa.paths(fa, [D.sym("self")]):
+        vs = [D.show_atom(a).split(" is ")[-1] for a, t_ in p.conds if t_ and " is " in D.show_atom(a)]
+        if p.kind == "ret":
+            got[vs[0] if len(vs) == 1 else "*"] = D.show(p.ret)
+    badv = {k_: v_ for k_, v_ in got.items() if v_ != f"self.{k_}.0.default"}
+    ctx.check(set(got) == {"Override", "Underride", "Content", "Room", "Sender"} and not badv, "C13.guards", "C13.guards:is_server_default:flag", w.where(fa),
+              bad_msg=f"AnyPushRuleRef::is_server_default answers {badv or got} instead of the rule's `default` flag: Ruleset::remove then deletes a server-default rule "
+                      f"whose id does not have the expected shape (every server-default room / sender rule) or refuses a user rule that has it")
+    fo = w.fn("ruma_common::push::iter::AnyPushRule::is_server_default")
+    po = [D.show(p.ret) for p in dexa.paths(fo, [D.sym("self")]) if p.kind == "ret"]
+    ctx.check(po == ["AnyPushRuleRef::is_server_default(AnyPushRule::as_ref(self))"] or (len(po) == 5 and all(re.fullmatch(r"self\.\w+\.0\.default", x) for x in po)),
+              "C13.guards", "C13.guards:is_server_default:owned", w.where(fo), bad_msg=f"AnyPushRule::is_server_default answers {po[:2]}")
 
     ctx.rule("C13.positions", "default position passed to insert_and_move_rule is 0 for content/room/sender/underride and, for override rules, 1 iff the first override rule is the master rule (else 0); each kind "
                               "inserts into its own set")
